@@ -10,7 +10,8 @@ them and `Generate` (of the function or of a helper it asks for) then fails.
 
 The model is RUN next to the real goderive (driver op `regen`, `Driver/OpsRegen.lean`; scenarios of
 `harness/cmd/genregen`; comparison in `vlib/regen.py`): same calls, same old file, `GenFn` tabulated
-from one-call runs of the real plugins.  Types are numbered such that two distinct numbers are not
+from one-call runs of the real plugins; invocations over several packages by `invocation` (op `regenall`)
+in the order `G/Order.generationOrder` gives.  Types are numbered such that two distinct numbers are not
 assignable to each other (the scenario generator uses no two types with one underlying type).
 -/
 namespace Goderive.Reload
@@ -104,25 +105,66 @@ def insertSorted (s : Nat) : List Nat → List Nat
 def sortStrings (l : List Nat) : List Nat := l.foldr insertSorted []
 
 /-- `generatePackage`: the result is what is left on disk — the functions written by the last pass with
-the argument types they were generated for (`none` = derived.gen.go removed); the next pass reads it as
-`fileOf`. `passes` counts the passes made (`for passes := 0; generated || passes < 2; passes++`): the
-first pass is followed by a reload also when it generated nothing (F74: it worked on the program as it
-was loaded before this run generated for the imported packages). -/
-def loop (gen : GenFn) (calls : List Call) :
+the argument types they were generated for (`none` = derived.gen.go removed). `view` is what the loader
+shows of derived files in this pass: the package's own file and, after it, `env`, the files of the
+other packages of the program (several packages in one invocation; `[]` for a package alone); after a
+pass the own file is `fileOf reg`. `passes` counts the passes made (`for passes := 0; generated ||
+passes < 2; passes++`): the first pass is followed by a reload also when it generated nothing (F74:
+the first pass works on the program as it was loaded before this run generated for the imported
+packages — its view of them is the one handed to `regenIn` as `env0`). -/
+def loop (gen : GenFn) (calls : List Call) (env : Derived) :
     Nat → Nat → Derived → Option (List Nat) → Except String (Option (List Fn))
   | 0, _, _, _ => .error "no fixpoint within the fuel"
-  | fuel + 1, passes, d, prev => do
-    let (reg, us) ← pass gen d calls
+  | fuel + 1, passes, view, prev => do
+    let (reg, us) ← pass gen view calls
     let us := sortStrings us
     let file : Option (List Fn) := if reg = [] then none else some reg   -- Print, or Delete when nothing was printed
     if us = [] then .ok file
     else if prev = some us then (if reg = [] then .error "cannot generate" else .ok file)
     else if reg = [] ∧ 1 ≤ passes then .error "cannot generate"
-    else loop gen calls fuel (passes + 1) (fileOf reg) (some us)
+    else loop gen calls env fuel (passes + 1) (fileOf reg ++ env) (some us)
+
+/-- one package of an invocation: `old` is its own derived.gen.go, `env0` the derived files of the other
+packages as the program was loaded at the start of the invocation, `env` the same files as they are on
+disk when this package is reloaded (the packages generated before it in this run have new ones) -/
+def regenIn (gen : GenFn) (calls : List Call) (env0 env old : Derived) : Except String (Option (List Fn)) :=
+  loop gen calls env (calls.length + 3) 0 (old ++ env0) none
 
 /-- one run of goderive on a package whose derived.gen.go the loader sees as `old` -/
 def regen (gen : GenFn) (calls : List Call) (old : Derived) : Except String (Option (List Fn)) :=
-  loop gen calls (calls.length + 3) 0 old none
+  regenIn gen calls [] [] old
+
+/-! ### several packages in one invocation (function names are numbered across the packages) -/
+
+structure PkgRun where
+  id : Nat
+  calls : List Call
+  deriving Repr
+
+/-- the derived files of the other packages -/
+def others (p : Nat) (disk : List (Nat × Derived)) : Derived :=
+  (disk.filter fun x => x.1 ≠ p).flatMap (·.2)
+
+def setFile (disk : List (Nat × Derived)) (p : Nat) (f : Derived) : List (Nat × Derived) :=
+  (disk.filter fun x => x.1 ≠ p) ++ [(p, f)]
+
+/-- `program.Generate`: the packages in generation order (`G/Order.generationOrder`), each with the view
+of the others from the initial load (`start`) in its first pass and from the disk afterwards; the first
+failing package ends the run. Result: per processed package what it left (the failing one last). -/
+def runAll (gen : GenFn) (start : List (Nat × Derived)) :
+    List PkgRun → List (Nat × Derived) → List (Nat × Except String (Option (List Fn))) →
+    List (Nat × Except String (Option (List Fn)))
+  | [], _, res => res
+  | p :: rest, disk, res =>
+    match regenIn gen p.calls (others p.id start) (others p.id disk) ((disk.lookup p.id).getD []) with
+    | .error e => res ++ [(p.id, .error e)]
+    | .ok file =>
+      runAll gen start rest (setFile disk p.id (match file with | some reg => fileOf reg | none => []))
+        (res ++ [(p.id, .ok file)])
+
+def invocation (gen : GenFn) (start : List (Nat × Derived)) (order : List PkgRun) :
+    List (Nat × Except String (Option (List Fn))) :=
+  runAll gen start order start []
 
 /-- `NoStaleFlow`: on every callee whose result type flows into another derive call, the old file
 declares exactly what `f` declares (same signature, or neither declares it) -/
